@@ -4,6 +4,7 @@ package hsms
 
 import (
 	"math"
+	"strings"
 
 	"github.com/wolimst/lib-secs2-hsms-go/pkg/ast"
 	rt "github.com/wolimst/lib-secs2-hsms-go/pkg/zzverifrt"
@@ -94,6 +95,9 @@ func zzCheckRoundTrip(item ast.ItemNode, st, fn, wb, sid int, sys []byte, name s
 	m := ast.NewHSMSDataMessage(name, st, fn, wb, "H<->E", item, sid, sys)
 	b := m.ToBytes()
 	rt.Assert(len(b) > 0, "encodes")
+	ib := item.ToBytes()
+	rt.Assert(len(ib) >= 2, "item-encodes")
+	rt.Assert(len(b) == 14+len(ib), "message-carries-the-item")
 	got, ok := Parse(b)
 	rt.Assert(ok, "decode-ok")
 	d, isData := got.(*ast.DataMessage)
@@ -105,6 +109,10 @@ func zzCheckRoundTrip(item ast.ItemNode, st, fn, wb, sid int, sys []byte, name s
 	rt.Assert(rt.BytesEq(d.SystemBytes(), sys), "system-bytes")
 	rt.Assert(rt.BytesEq(got.ToBytes(), b), "re-encode-identical")
 	rt.Assert(len(d.Variables()) == 0, "no-variables")
+	// identical item tree: the decoder names the message "" with direction H<->E, as m is
+	if name == "" {
+		rt.Assert(rt.StrEq(d.String(), m.String()), "item-tree-identical")
+	}
 }
 
 // ZZ_C01_leaf: encode -> decode -> encode for one leaf format with n symbolic elements.
@@ -245,5 +253,34 @@ func ZZ_C02_boundary() {
 	}
 	item, payload := zzLeaf(kind, n, "v")
 	rt.Assert(rt.BytesEq(item.ToBytes(), zzLeafEnc(kind, n, payload)), "boundary-item-bytes")
+	rt.Reach("end")
+}
+
+// ZZ_C02_bigmessage: a complete message around one ASCII item of n characters (concrete
+// filler; the item and message length fields are what is examined, header fields symbolic):
+// n = 16,777,215 makes the message longer than 2^24 bytes, so all four message-length
+// bytes matter.
+func ZZ_C02_bigmessage() {
+	n := rt.Param("n")
+	item := ast.NewASCIINode(strings.Repeat("x", n))
+	st, fn, wb, sid, sys := zzHeaderFields()
+	rt.Assume(wb == 0) // one path: the size is what is examined
+	m := ast.NewHSMSDataMessage("", st, fn, wb, "H<->E", item, sid, sys)
+	b := m.ToBytes()
+	total := 14 + 1 + 3 + n
+	if n <= 255 {
+		total = 14 + 2 + n
+	} else if n <= 65535 {
+		total = 14 + 3 + n
+	}
+	rt.Assert(len(b) == total, "big:length")
+	ml := total - 4
+	rt.Assert(b[0] == byte(ml>>24) && b[1] == byte(ml>>16) && b[2] == byte(ml>>8) && b[3] == byte(ml), "big:message-length-field")
+	rt.Assert(int(b[4])<<8|int(b[5]) == sid, "big:session-id")
+	hdr := zzHeader(0o20, n)
+	for i := range hdr {
+		rt.Assert(b[14+i] == hdr[i], "big:item-header")
+	}
+	rt.Assert(b[len(b)-1] == 'x' && b[14+len(hdr)] == 'x', "big:payload-ends")
 	rt.Reach("end")
 }
